@@ -59,6 +59,10 @@ class Hang(Exception):
     """the poll would block forever (no deadline, nothing in flight)"""
 
 
+class BadSequence(Exception):
+    """the event sequence itself is ill-formed (a wrapper called before it was made); never a finding"""
+
+
 class Spin(Exception):
     """the code under test keeps polling without the clock moving or anything being consumed (in real time: a busy
     loop); reported as an observation instead of hanging the check"""
@@ -281,6 +285,8 @@ class Sim:
             self.wrapper = rpyc.timed(self.proxy, parse_tau(tok[1:]))      # made now, called later (K), maybe repeatedly
             out = "-"
         elif c == "K":
+            if self.wrapper is None:
+                raise BadSequence("K before W")
             self.res = self.wrapper()
             out = "-"
         else:
@@ -1062,6 +1068,8 @@ def oracle_search(ctx, corr, broken):
     def check(t0, toks):
         try:
             return oracle_sequence(t0, toks)
+        except BadSequence:
+            return None
         except Exception as ex:  # noqa  (a crash of the real code inside a sequence is a failure of its own kind)
             return "event ?: (%s): the real code raised %s: %s" % (" ".join(toks), type(ex).__name__, ex)
 
